@@ -25,6 +25,13 @@ where
         agg_result: &mut [Self::Field],
         _num_measurements: usize,
     ) -> Result<(), FlpError> {
+        #[cfg(prio_verif)]
+        return self.add_noise(
+            dp_strategy,
+            agg_result,
+            &mut crate::verif_hooks::SimRng::wrap(make_rng::<SeedStreamTurboShake128>()),
+        );
+        #[cfg(not(prio_verif))]
         self.add_noise(
             dp_strategy,
             agg_result,
@@ -43,6 +50,13 @@ where
         agg_result: &mut [Self::Field],
         _num_measurements: usize,
     ) -> Result<(), FlpError> {
+        #[cfg(prio_verif)]
+        return self.add_noise(
+            dp_strategy,
+            agg_result,
+            &mut crate::verif_hooks::SimRng::wrap(make_rng::<SeedStreamTurboShake128>()),
+        );
+        #[cfg(not(prio_verif))]
         self.add_noise(
             dp_strategy,
             agg_result,
@@ -99,6 +113,13 @@ where
         agg_result: &mut [Self::Field],
         _num_measurements: usize,
     ) -> Result<(), FlpError> {
+        #[cfg(prio_verif)]
+        return self.add_noise(
+            dp_strategy,
+            agg_result,
+            &mut crate::verif_hooks::SimRng::wrap(make_rng::<SeedStreamTurboShake128>()),
+        );
+        #[cfg(not(prio_verif))]
         self.add_noise(
             dp_strategy,
             agg_result,
@@ -117,6 +138,13 @@ where
         agg_result: &mut [Self::Field],
         _num_measurements: usize,
     ) -> Result<(), FlpError> {
+        #[cfg(prio_verif)]
+        return self.add_noise(
+            dp_strategy,
+            agg_result,
+            &mut crate::verif_hooks::SimRng::wrap(make_rng::<SeedStreamTurboShake128>()),
+        );
+        #[cfg(not(prio_verif))]
         self.add_noise(
             dp_strategy,
             agg_result,
@@ -164,6 +192,13 @@ where
         agg_result: &mut [Self::Field],
         _num_measurements: usize,
     ) -> Result<(), FlpError> {
+        #[cfg(prio_verif)]
+        return self.add_noise(
+            dp_strategy,
+            agg_result,
+            &mut crate::verif_hooks::SimRng::wrap(make_rng::<SeedStreamTurboShake128>()),
+        );
+        #[cfg(not(prio_verif))]
         self.add_noise(
             dp_strategy,
             agg_result,
@@ -182,6 +217,13 @@ where
         agg_result: &mut [Self::Field],
         _num_measurements: usize,
     ) -> Result<(), FlpError> {
+        #[cfg(prio_verif)]
+        return self.add_noise(
+            dp_strategy,
+            agg_result,
+            &mut crate::verif_hooks::SimRng::wrap(make_rng::<SeedStreamTurboShake128>()),
+        );
+        #[cfg(not(prio_verif))]
         self.add_noise(
             dp_strategy,
             agg_result,
